@@ -12,6 +12,17 @@ def gen(ck, params, cfgs):
         for tag, v in vecs:
             for op in OPS1:
                 cases.append(("%s:%s" % (op, tag.split(" e_")[0]), (w, n, nm), "%s %d %d %d %s" % (op, w, n, nm, nc.flat(v))))
+        # arbitrary machine words (not reduced): the forward transform still meets its specification (the twist reduces), the inverse
+        # has no specification there but the library must equal the source-structured model word for word (lazy butterflies,
+        # fused last layers and signed-compare tricks on out-of-range operands)
+        B = 1 << w; ps = [params[w]["rows"][cm][0] for cm in range(nm)]
+        wild = [("edge words", [[(B - 1, p, 2 * p, 2 * p - 1, 4 * p - 1, B // 2, B // 2 - 1, 0)[(i + cm) % 8] % B for i in range(n)] for cm, p in enumerate(ps)]),
+                ("all 2^w-1", [[B - 1] * n for _ in ps])] + [("random words", [[ck.rng.randrange(B) for _ in range(n)] for _ in ps]) for _ in range(2 if q else 4)]
+        for tag, v in wild:
+            for op in ("fwd", "inv"):
+                cases.append(("%s:wild %s" % (op, tag), (w, n, nm), "%s %d %d %d %s" % (op, w, n, nm, nc.flat(v))))
+        if n <= 64:
+            for tag, v in vecs[-2:]: cases.append(("geneq:structured model = generic model", (w, n, nm), "geneq %d %d %d %s" % (w, n, nm, nc.flat(v))))
         for i in range(0, len(vecs) - 1, 2):
             cases.append(("addfwd:linearity", (w, n, nm), "addfwd %d %d %d %s %s" % (w, n, nm, nc.flat(vecs[i][1]), nc.flat(vecs[i + 1][1]))))
     return cases
